@@ -1,6 +1,6 @@
 (* C07, equality: "equality honours the documented float tolerance and string normalisation INDEPENDENT OF ARGUMENT ORDER".
    Proved of the model of equality_test (model/C07_Equality.v) for values of any size and nesting built from scalars, lists,
-   tuples, sets and frozensets; dicts are modelled and tied by the correspondence run but not covered by the theorem.
+   tuples, sets and frozensets; values that contain dicts are covered in C07_Equality_Dicts.v / C07_Equality_DictSym.v.
    The one-directional set comparison the code had before fix 5caf932 is refuted by a witness. *)
 From Coq Require Import ZArith QArith Qabs List Bool Arith Lia.
 Import ListNotations.
